@@ -230,6 +230,15 @@ def run_case(ctx, case, graph=None):
                 if "too deep recursion" in r["msg"]:
                     out.append(("no_bogus_depth", {"list": name, "msg": r["msg"][:100], "reps": reps}, "none"))
                     break
+    if raised is None and reps > 1:
+        # after many calls on the page (failing ones included) a flat page with a little nesting is still not "too deep"
+        try:
+            probe = ctx.expand("{{a|{{a|{{a|x}}}}}} {{#if:1|{{a|{{#if:1|y}}}}}}")
+        except Exception as e:
+            probe = "EXC " + type(e).__name__
+        if "too deep" in probe or probe.startswith("EXC") or any("too deep recursion" in r["msg"] for n_ in LISTS for r in getattr(ctx, n_)
+                                                                  if page.count("{{") + page.count("[[") <= 3):
+            out.append(("no_bogus_depth_after_repeated_calls", {"probe": probe[:200], "reps": reps}, "the nested calls expanded"))
     check_messages(ctx, title, section, subsection, out)
     if case.get("then_plain") and raised is None:
         # the same title started again without a section: records must carry the current (empty) section
@@ -294,6 +303,11 @@ def build_cases(tier):
         for o in opts:
             if o["hook"] in ("none", "tf_mark"):
                 cases.append({"page": p, "opts": o, "reps": reps, "section": "Sec", "subsection": "Sub"})
+    # calls that fail inside a parser function (a raising hook; the failure is reported in-band): 150 of them on one page
+    for p in ("{{#if:1|{{a|z}}|n}}", "{{#switch:x|x={{a|{{a|z}}}}}}", "{{#if:1|{{n|k={{a|z}}}}}} {{a|1}}"):
+        for o in opts:
+            if o["hook"] in ("tf_raise", "ptf_raise") and o.get("expand_parserfns", True):
+                cases.append({"page": p, "opts": o, "reps": 150})
     for p in DEEP_FORMS:
         for o in opts:
             if o["hook"] == "none" and (o["mode"] == "parse" or (o["expand_parserfns"] and o["expand_invoke"])):
